@@ -168,7 +168,8 @@ def small_docs():
                             p = [{"n": "Alpha", "c": "", "b": b1}]
                             if b2 is not None:
                                 p.append({"n": "Beta", "c": c, "b": b2})
-                            paras = [p] + ([[{"n": "Gamma", "c": c, "b": b1}]] if two else [])
+                            # the second paragraph repeats a name of the first in another case
+                            paras = [p] + ([[{"n": "Gamma", "c": c, "b": b1}, {"n": "alpha", "c": "", "b": " w\n"}]] if two else [])
                             d = {"lead": "", "paras": paras, "seps": ["\n"] * (len(paras) - 1),
                                  "tail": tail, "final_nl": fin}
                             for o1 in ops:
